@@ -155,6 +155,23 @@ pub fn c15_cell(ctx: &Ctx, tag: &str, st: &StateSpec, faults: Vec<Fault>, subset
     History { property: "C15".into(), seed, label, steps }
 }
 
+/// A start on a data file system that has room for only `free_pages` more pages / `free_inodes`
+/// more files than the prior state occupies (a real ENOSPC wherever the capacity runs out), then,
+/// with space restored, two undisturbed starts.
+pub fn c15_disk_cell(ctx: &Ctx, tag: &str, st: &StateSpec, free_pages: Option<u64>, free_inodes: Option<u64>, subset: Option<Vec<usize>>, seed: u64) -> History {
+    let f = |x: Option<u64>| x.map(|v| v.to_string()).unwrap_or_else(|| "plenty".into());
+    let label = format!("{tag} x disk with {} free pages, {} free inodes", f(free_pages), f(free_inodes));
+    let steps = vec![
+        Step::Fabricate { state: st.clone() },
+        Step::Disk { free_pages, free_inodes },
+        Step::Start { session: c15_session(ctx, vec![], subset.clone()) },
+        Step::Disk { free_pages: None, free_inodes: None },
+        Step::Start { session: c15_session_ordered(ctx, vec![], subset.clone(), seed % 2 == 1) },
+        Step::Start { session: c15_session(ctx, vec![], subset) },
+    ];
+    History { property: "C15".into(), seed, label, steps }
+}
+
 /// All hook points with the number of hits a full rebuild produces (upper bounds for `k`).
 pub fn all_points(ctx: &Ctx) -> Vec<(&'static str, usize)> {
     vec![
@@ -461,7 +478,8 @@ pub fn c14_random(ctx: &Ctx, rng: &mut Rng, seed: u64, quick: bool) -> History {
 
 pub fn c16_random(ctx: &Ctx, rng: &mut Rng, seed: u64, perms: Perms, class: usize) -> History {
     let cpus = cpus_choice(rng);
-    let own = |slot: usize| Op::OwnWords { slot, perms, only: None };
+    let again = Some(seed ^ 0x5eed);
+    let own = |slot: usize| Op::OwnWords { slot, perms, only: None, again };
     let mut steps = Vec::new();
     let label;
     match [0usize, 1, 2, 3, 3, 4, 5, 3][class % 8] {
